@@ -166,9 +166,13 @@ class Spec:
     """what the property text states about one model, as data (the oracle side; never the formula itself)"""
 
     def __init__(self, name, sample, prange=None, nrange=None, sat=None, henry=None, monotone=lambda p: True, attrs=None,
-                 inv_rtol=1e-8, zero_defined=True, iast=False):
+                 inv_rtol=1e-8, zero_defined=True, iast=False, regimes=None):
         self.name, self.sample, self.prange, self.nrange, self.sat, self.henry = name, sample, prange, nrange, sat, henry
         self.monotone, self.attrs, self.inv_rtol, self.zero_defined = monotone, attrs, inv_rtol, zero_defined
+        # parameter REGIMES inside the declared bounds in which the closed forms take another branch / sign (the sign of the leading
+        # coefficient of the quadratic the inverse solves, exponents on either side of 1, coinciding sites ...): every run visits each
+        # of them at least once, whatever the seed; {label: function(rnd, base parameter vector) -> parameter vector}
+        self.regimes = regimes or {}
 
 
 def _s(rnd, **kw):
@@ -184,35 +188,50 @@ SPECS = {
                      sat=lambda p: p['n_m'], henry=lambda p: p['K'] * p['n_m']),
     'DSLangmuir': Spec('DSLangmuir', lambda r: _s(r, n_m1=NM, K1=KL, n_m2=NM, K2=KL),
                        prange=lambda p: (1e-3 / max(p['K1'], p['K2']), 30 / max(p['K1'], p['K2'])),
-                       sat=lambda p: p['n_m1'] + p['n_m2'], henry=lambda p: p['n_m1'] * p['K1'] + p['n_m2'] * p['K2']),
+                       sat=lambda p: p['n_m1'] + p['n_m2'], henry=lambda p: p['n_m1'] * p['K1'] + p['n_m2'] * p['K2'],
+                       regimes={'K1>K2': lambda r, p: dict(p, K1=r3(p['K2'] * r.uniform(2, 50))), 'K1<K2': lambda r, p: dict(p, K2=r3(p['K1'] * r.uniform(2, 50))),
+                                'K1=K2': lambda r, p: dict(p, K2=p['K1'])}),
     'TSLangmuir': Spec('TSLangmuir', lambda r: _s(r, n_m1=NM, n_m2=NM, n_m3=NM, K1=KL, K2=KL, K3=KL),
                        prange=lambda p: (1e-3 / max(p['K1'], p['K2'], p['K3']), 30 / max(p['K1'], p['K2'], p['K3'])),
                        sat=lambda p: p['n_m1'] + p['n_m2'] + p['n_m3'],
-                       henry=lambda p: p['n_m1'] * p['K1'] + p['n_m2'] * p['K2'] + p['n_m3'] * p['K3'], inv_rtol=1e-6),
+                       henry=lambda p: p['n_m1'] * p['K1'] + p['n_m2'] * p['K2'] + p['n_m3'] * p['K3'], inv_rtol=1e-6,
+                       regimes={'K1=K2=K3': lambda r, p: dict(p, K2=p['K1'], K3=p['K1'])}),
     'BET': Spec('BET', lambda r: _s(r, n_m=NM, C=lambda r: loguni(r, 0.5, 300), N=lambda r: r.uniform(0.05, 1.0)),
-                prange=lambda p: (1e-3 / p['N'], 0.9 / p['N']), henry=lambda p: p['n_m'] * p['C'], inv_rtol=1e-7),
+                prange=lambda p: (1e-3 / p['N'], 0.9 / p['N']), henry=lambda p: p['n_m'] * p['C'], inv_rtol=1e-7,
+                # the sign of the leading coefficient n N (N - C) of the quadratic that pressure() solves
+                regimes={'C<N': lambda r, p: dict(p, N=r3(r.uniform(0.3, 1.0)), C=r3(r.uniform(0.03, 0.28))),
+                         'C>N': lambda r, p: dict(p, C=r3(loguni(r, 1.5, 300)))}),
     'GAB': Spec('GAB', lambda r: _s(r, n_m=NM, C=lambda r: loguni(r, 0.5, 300), K=lambda r: r.uniform(0.05, 1.0)),
-                prange=lambda p: (1e-3 / p['K'], 0.9 / p['K']), henry=lambda p: p['n_m'] * p['C'] * p['K'], inv_rtol=1e-7),
+                prange=lambda p: (1e-3 / p['K'], 0.9 / p['K']), henry=lambda p: p['n_m'] * p['C'] * p['K'], inv_rtol=1e-7,
+                # the sign of the leading coefficient n (1 - C) K^2
+                regimes={'C<1': lambda r, p: dict(p, C=r3(r.uniform(0.03, 0.95))), 'C>1': lambda r, p: dict(p, C=r3(loguni(r, 1.2, 300)))}),
     'Freundlich': Spec('Freundlich', lambda r: _s(r, K=lambda r: loguni(r, 0.1, 10), m=lambda r: r.uniform(0.5, 5)),
-                       prange=lambda p: (1e-3, 10.0)),
+                       prange=lambda p: (1e-3, 10.0),
+                       regimes={'m<1': lambda r, p: dict(p, m=r3(r.uniform(0.3, 0.95))), 'm>1': lambda r, p: dict(p, m=r3(r.uniform(1.1, 5)))}),
     'DR': Spec('DR', lambda r: _s(r, n_m=NM, e=lambda r: r.uniform(2000, 15000)), prange=lambda p: (1e-4, 1.0), sat=lambda p: p['n_m'],
                attrs=lambda r: {'minus_rt': -R_GAS * r3(r.uniform(77, 350))}, zero_defined=False),
     'DA': Spec('DA', lambda r: _s(r, n_m=NM, e=lambda r: r.uniform(2000, 15000), m=lambda r: r.uniform(1, 3)), prange=lambda p: (1e-4, 0.999),
                sat=lambda p: p['n_m'], attrs=lambda r: {'minus_rt': -R_GAS * r3(r.uniform(77, 350))}, zero_defined=False),
     'Quadratic': Spec('Quadratic', lambda r: _s(r, n_m=NM, Ka=lambda r: loguni(r, 1e-2, 10), Kb=lambda r: loguni(r, 1e-3, 10)),
                       prange=lambda p: (1e-3, 20.0), sat=lambda p: 2 * p['n_m'], henry=lambda p: p['n_m'] * p['Ka'],
-                      monotone=lambda p: p['Ka'] >= 0 and p['Kb'] >= 0, inv_rtol=1e-7),
+                      monotone=lambda p: p['Ka'] >= 0 and p['Kb'] >= 0, inv_rtol=1e-7,
+                      # discriminant regimes of 1 + Ka p + Kb p^2 (real / complex roots), and the pure second-order isotherm
+                      regimes={'Ka^2>4Kb': lambda r, p: dict(p, Ka=r3(r.uniform(2, 10)), Kb=r3(r.uniform(0.01, 0.9))),
+                               'Ka^2<4Kb': lambda r, p: dict(p, Ka=r3(r.uniform(0.01, 1)), Kb=r3(r.uniform(1, 10)))}),
     'TemkinApprox': Spec('TemkinApprox', lambda r: _s(r, n_m=NM, K=KL, tht=lambda r: r.uniform(0, 4.5)),
                          prange=lambda p: (1e-3 / p['K'], 30 / p['K']), sat=lambda p: p['n_m'], henry=lambda p: p['n_m'] * p['K'],
-                         monotone=lambda p: abs(p['tht']) <= 3, inv_rtol=1e-6),
+                         monotone=lambda p: abs(p['tht']) <= 3, inv_rtol=1e-6,
+                         regimes={'tht=0': lambda r, p: dict(p, tht=0.0), 'tht<=3': lambda r, p: dict(p, tht=r3(r.uniform(0.1, 3)))}),
     'Toth': Spec('Toth', lambda r: _s(r, n_m=NM, K=KL, t=lambda r: r.uniform(0.3, 3)), prange=lambda p: (1e-3 / p['K'], 30 / p['K']),
-                 sat=lambda p: p['n_m'], henry=lambda p: p['n_m'] * p['K'], inv_rtol=1e-7),
+                 sat=lambda p: p['n_m'], henry=lambda p: p['n_m'] * p['K'], inv_rtol=1e-7,
+                 regimes={'t<1': lambda r, p: dict(p, t=r3(r.uniform(0.3, 0.95))), 't>1': lambda r, p: dict(p, t=r3(r.uniform(1.1, 3))), 't=1': lambda r, p: dict(p, t=1.0)}),
     'JensenSeaton': Spec('JensenSeaton', lambda r: _s(r, K=lambda r: loguni(r, 0.1, 10), a=lambda r: r.uniform(1, 10), b=lambda r: r.uniform(0.01, 0.5),
                                                       c=lambda r: r.uniform(0.5, 3)), prange=lambda p: (1e-3, 20.0), henry=lambda p: p['K'], inv_rtol=1e-6),
     'Virial': Spec('Virial', lambda r: _s(r, K=lambda r: loguni(r, 0.1, 10), A=lambda r: r.uniform(0, 0.3), B=lambda r: r.uniform(0, 0.1),
                                           C=lambda r: r.uniform(0, 0.02)), nrange=lambda p: (0.05, 5.0), henry=lambda p: p['K'], inv_rtol=2e-3),
     'FHVST': Spec('FHVST', lambda r: _s(r, n_m=NM, K=lambda r: loguni(r, 0.1, 10), a1v=lambda r: r.uniform(-0.5, 2)),
-                  nrange=lambda p: (0.01 * p['n_m'], 0.9 * p['n_m']), sat=lambda p: p['n_m'], henry=lambda p: p['K'], inv_rtol=1e-6),
+                  nrange=lambda p: (0.01 * p['n_m'], 0.9 * p['n_m']), sat=lambda p: p['n_m'], henry=lambda p: p['K'], inv_rtol=1e-6,
+                  regimes={'a1v<0': lambda r, p: dict(p, a1v=r3(r.uniform(-0.5, -0.05))), 'a1v>0': lambda r, p: dict(p, a1v=r3(r.uniform(0.05, 2)))}),
     'WVST': Spec('WVST', lambda r: _s(r, n_m=NM, K=lambda r: loguni(r, 0.1, 10), L1v=lambda r: r.uniform(0.5, 1.5), Lv1=lambda r: r.uniform(0.5, 1.5)),
                  nrange=lambda p: (0.01 * p['n_m'], 0.9 * p['n_m']), sat=lambda p: p['n_m'], henry=lambda p: p['K'], inv_rtol=1e-6),
 }
@@ -226,8 +245,18 @@ def make_model(name, params, attrs=None):
     return m
 
 
-def sample_case(name, rnd):
+def sample_case(name, rnd, regime=None):
+    """a random in-bounds parameter vector; with `regime` (a key of SPECS[name].regimes) moved into that regime"""
     sp = SPECS[name]
     params = sp.sample(rnd)
     attrs = sp.attrs(rnd) if sp.attrs else {}
+    if regime is not None:
+        params = sp.regimes[regime](rnd, params)
     return params, attrs
+
+
+def stratified_cases(name, rnd, n_random, per_regime=1):
+    """every regime of the model `per_regime` times, then n_random unconstrained vectors"""
+    sp = SPECS[name]
+    out = [sample_case(name, rnd, g) for g in sorted(sp.regimes) for _ in range(per_regime)]
+    return out + [sample_case(name, rnd) for _ in range(n_random)]
